@@ -526,6 +526,28 @@ theorem C11_title (r : Bytes) (n : Nat) :
     unfold copyAdjust
     exact trimR_idem _
 
+/-- and neither title keeps trailing blanks: the strict relation holds as well -/
+theorem C11_title_strict (r : Bytes) (n : Nat) :
+    titleMatchStrict (copyAdjust r n) (adjustString (r.take n)) = true := by
+  have h1 := (C11_title r n).1
+  have nz1 : ∀ c ∈ copyAdjust r n, c ≠ 0 := fun c hc => isPrint_ne_zero (copyAdjust_printable r n c hc)
+  have nz2 : ∀ c ∈ adjustString (r.take n), c ≠ 0 :=
+    fun c hc => isPrint_ne_zero (adjustString_printable (r.take n) c hc)
+  have t1 : noTrailingSpace (copyAdjust r n) = true := by
+    unfold noTrailingSpace
+    rw [cstr_of_no_zero _ nz1]
+    unfold copyAdjust
+    rw [trimR_idem]; exact beq_self_eq_true _
+  have t2 : noTrailingSpace (adjustString (r.take n)) = true := by
+    unfold noTrailingSpace
+    rw [cstr_of_no_zero _ nz2]
+    unfold adjustString
+    rw [trimR_idem]; exact beq_self_eq_true _
+  simp only [titleMatchStrict, h1, t1, t2, Bool.and_self]
+
+/-- a title that keeps its trailing blanks does not match strictly -/
+example : titleMatchStrict [97, 98, 32, 32] [97, 98] = false ∧ titleMatch [97, 98, 32, 32] [97, 98] = true := by decide
+
 /-- the same at buffer level: the C strings found in the arrays the two C functions leave -/
 theorem C11_title_buffers (r : Bytes) (n : Nat) (b : Bytes) (hb : hasNul b = true) :
     cstr (copyAdjustBuf r n) = copyAdjust r n ∧ cstr (adjustStringBuf b) = adjustString b ∧
